@@ -7,9 +7,11 @@ import (
 	"os"
 
 	"verif/seq/fw"
+	"verif/seq/props/c01"
 	"verif/seq/props/c02"
 	"verif/seq/props/c04"
 	"verif/seq/props/c05"
+	"verif/seq/props/c07"
 	"verif/seq/props/c15"
 	"verif/seq/props/c16"
 	"verif/seq/props/c17"
@@ -23,9 +25,11 @@ type entry struct {
 }
 
 var table = map[string]entry{
+	"C01": {"exploration", c01.Run},
 	"C02": {"exploration", c02.Run},
 	"C04": {"exploration", c04.Run},
 	"C05": {"exploration", c05.Run},
+	"C07": {"model_checking", c07.Run},
 	"C15": {"exploration", c15.Run},
 	"C16": {"exploration", c16.Run},
 	"C17": {"exploration", c17.Run},
